@@ -36,7 +36,7 @@ def run_case(ctx, gd, q, via="outcomes"):
     kernel.LOG.reset_case({"graph": gd, "X": q["X"], "Y": q["Y"], "via": via})
     res = None
     try:
-        res = gq.call_id(g, {"X": q["X"], "Y": q["Y"], "Z": []}, via)
+        res = gq.call_id(g, {"X": q["X"], "Y": q["Y"], "Z": []}, via, prop=PROP)
     except Exception:  # noqa: BLE001  (totality is C02's clause; the monitor has logged it)
         kernel.count("C01:driver-saw-exception")
     tags = set(kernel.tags())
